@@ -354,6 +354,9 @@ def plan(pid: str, tier: str, seed: int) -> dict:
                 ("susp", {"AnyOrder": "FALSE", "MaxSignals": 1, "MaxCrashes": 1, "EnvBetween": "TRUE"}, {})]
                + ([] if quick else [("suspside", {"AnyOrder": "TRUE", "MaxSignals": 2, "MaxWithhold": 1}, {"depth": 70})]),
             allow_ref_mismatch=True,
+            # two workers: the signal handler vs. the task result that suspends (spec/SuspendRace.tla), every interleaving at
+            # write-transaction grain replayed on real handler threads + statement-level PCT schedules
+            component=lambda rep: suspend_component(rep, tier, seed),
         )
     if pid == "C11":
         progs = [PR.by_name(n) for n in ("mutex2", "mutex3", "mutexfail", "mutexsusp", "choice2", "choice3")]
@@ -396,6 +399,12 @@ def adapt_component(rep: Reporter, res: dict) -> dict:
         rep.violation(v["what"], ctx, v.get("replay") or {})
     return {"states": res.get("states", 0), "transitions": res.get("transitions", 0),
             "replayed": res.get("cases_replayed", 0), "configs": res.get("details"), "samples": res.get("samples", [])[:3]}
+
+
+def suspend_component(rep: Reporter, tier: str, seed: int) -> dict:
+    from . import check_progress
+
+    return check_progress.component(rep, tier, seed, "suspend")
 
 
 def progress_component(rep: Reporter, tier: str, seed: int) -> dict:
